@@ -8,7 +8,7 @@
    Model/StateLockLTS.v (the object of the theorems of Props/C11.v) must be able to perform
    the observed log, and what it computes must be what was observed; (b) Model/StateLock.v
    part 2 (spec_run, order_ok), an independent deterministic replay of the same log. *)
-From Eino Require Import Base.Util Model.StateLock Model.StateLockLTS Model.StateLockDrive.
+From Eino Require Import Base.Util Model.StateLock Model.StateLockLTS Model.StateLockDrive Model.StateLockType.
 Open Scope N_scope.
 
 Inductive outcome := OVal (x : X) | OErr.
@@ -30,35 +30,9 @@ Record ccase := mkCase {
 
 Definition all_nodes (f : forest) : list node := List.concat (map g_nodes f).
 
-Definition gty_of (gty : list N) (g : nat) : N := nth g gty 0.
-Definition nty_of (nty : list (N * (N * (N * N)))) (n : N) : N * (N * N) :=
-  match nlist_get n nty with Some t => t | None => (0, (0, 0)) end.
-
-(* AddNode rejects a state handler on a node of a graph that declares no state, and a state
-   handler written for another state type than the graph's (compose/graph.go:184-224) *)
-Definition build_err_t (f : forest) (gty : list N) (nty : list (N * (N * (N * N)))) : bool :=
-  existsb (fun gg => let '(gi, g) := gg in
-             if g_state g then
-               existsb (fun a => let '(tpre, (tpost, _)) := nty_of nty (n_id a) in
-                                 (n_pre a && negb (N.eqb tpre (gty_of gty gi))) ||
-                                 (n_post a && negb (N.eqb tpost (gty_of gty gi)))) (g_nodes g)
-             else existsb (fun a => n_pre a || n_post a) (g_nodes g))
-          (combine (seq 0 (List.length f)) f).
-
-(* a lambda that calls ProcessState where no enclosing graph declares state, or for another
-   state type than the one of the nearest enclosing graph that does, fails the run
-   (getState: "have not set state" / "unexpected state type") *)
-Definition must_fail_t (f : forest) (gty : list N) (nty : list (N * (N * (N * N)))) : bool :=
-  existsb (fun a => match n_sub a with
-                    | Some _ => false
-                    | None => Nat.ltb 0 (n_ps a) &&
-                              match find_node f (n_id a) with
-                              | Some (gi, _) => match owner (S (List.length f)) f gi with
-                                                | Some og => negb (N.eqb (snd (snd (nty_of nty (n_id a)))) (gty_of gty og))
-                                                | None => true end
-                              | None => true
-                              end
-                    end) (all_nodes f).
+(* [build_err_t] (AddNode / Compile refuses the program), [must_fail_t] (a ProcessState call finds
+   no state of its type: the run fails), [nest_ok], [lookup_ok]: Model/StateLockType.v — the
+   hypotheses and the conclusion of state_lookup_well_typed *)
 
 Definition stateful_count (f : forest) : N := N.of_nat (List.length (filter g_state f)).
 
@@ -101,7 +75,10 @@ Definition count_run (l : list item) (r : N) : nat :=
    seen), 212 object identities, 213 final value of an object, 214 result of a run,
    215 generator calls, 216/217 conclusions of the theorems evaluated on the configuration,
    218 the program is not well formed (hypothesis of nested_between), 219/220 conclusions of
-   acquisition_order / the generator-call clause evaluated *)
+   acquisition_order / the generator-call clause evaluated, 221 the forest is not a tree of
+   nested graphs (hypothesis of state_lookup_well_typed), 222 its conclusion evaluated: some
+   instance does not see the object made by the generator of the nearest enclosing graph that
+   declares state *)
 Definition check_lts (c : ccase) : N :=
   let f := c_forest c in
   match drive f (c_x0 c) (c_runs c) (c_log c) with
@@ -134,7 +111,9 @@ Definition check_lts (c : ccase) : N :=
     if negb (order_done_ok f g) then 217 else
     if negb (topo_ok f) then 218 else     (* hypothesis of nested_between *)
     if negb (acq_ok g) then 219 else
-    if negb (gens_ok g) then 220 else 0
+    if negb (gens_ok g) then 220 else
+    if negb (nest_ok f) then 221 else
+    if negb (lookup_ok f g) then 222 else 0
   end.
 
 Definition check_spec (c : ccase) : N :=     (* 0 = agree, otherwise the first check that failed *)
